@@ -88,7 +88,12 @@ impl Graph {
             .sorted_by(|a, b| {
                 let primary = b.node_rank.cmp(&a.node_rank);
                 if primary == Ordering::Equal {
-                    a.key.cmp(&b.key)
+                    // entries of one note: by position and text, not by arena ids (which depend
+                    // on the order in which notes were loaded and edited)
+                    a.key
+                        .cmp(&b.key)
+                        .then_with(|| a.line.cmp(&b.line))
+                        .then_with(|| a.search_text.cmp(&b.search_text))
                 } else {
                     primary
                 }
